@@ -21,7 +21,7 @@ EXPLANATION = (
     'output dtype is the input dtype, and that the input array is left untouched. Solver over values, enumeration over shapes.')
 BOUNDS = {
     'quick': 'rank 1-3, extents 0-4 (incl. singleton and empty non-filtered axes), every axis / target_axis / time_axis value incl. negatives, '
-             'num_deltas 0-2, context_window 1-2, pad modes edge/constant/reflect/symmetric, num_vectors 1-4, pad_mode None/edge/constant, float32/float64: '
+             'num_deltas 0-2, context_window 1-2, pad modes edge/constant/reflect/symmetric/linear_ramp, num_vectors 1-4, pad_mode None/edge/constant/wrap/symmetric/reflect, float32/float64: '
              'seeded covering sample of the grid (about 700 configurations)',
     'thorough': 'rank 1-4, extents 0-5, num_deltas 0-3, context_window 1-3: about 6000 configurations',
 }
@@ -86,6 +86,16 @@ def spec_deltas(x, axis, num_deltas, W, mode, target_axis, concatenate):
             t = idx[ax]
             s = z3.RealVal(0)
             for j in range(-half, half + 1):
+                if mode == 'linear_ramp' and not (0 <= t + j < n):
+                    # np.pad(..., half, 'linear_ramp'): the ramp runs from 0 (end value) to the edge sample over the pad
+                    # width, which for delta order k is k * context_window
+                    if t + j < 0:
+                        e_ = xo[idx[:ax] + (0,) + idx[ax + 1:]]
+                        s = s + rq(sc[j + half]) * rq(e_) * z3.Q(t + j + half, half)
+                    else:
+                        e_ = xo[idx[:ax] + (n - 1,) + idx[ax + 1:]]
+                        s = s + rq(sc[j + half]) * rq(e_) * z3.Q(half - 1 - (t + j - n), half)
+                    continue
                 src = ext_index(t + j, n, mode)
                 if src is None:
                     continue
@@ -120,6 +130,12 @@ def spec_stack(x, axis, time_axis, V, pad_mode):
         elif pad_mode == 'edge':
             src[ta] = T - 1
             out[idx] = xo[tuple(src)]
+        elif pad_mode == 'wrap':
+            src[ta] = src_t % T           # np.pad(..., 'wrap'): continues with the first frames of the whole utterance
+            out[idx] = xo[tuple(src)]
+        elif pad_mode in ('symmetric', 'reflect'):
+            src[ta] = ext_index(src_t, T, pad_mode)
+            out[idx] = xo[tuple(src)]
         else:
             out[idx] = z3.RealVal(0)
     return out
@@ -149,7 +165,7 @@ def delta_grid(tier, seed):
                     for ta in tr:
                         for nd_ in ((0, 1, 2) if tier == 'quick' else (0, 1, 2, 3)):
                             for W in ((1, 2) if tier == 'quick' else (1, 2, 3)):
-                                for mode in ('edge', 'constant', 'reflect', 'symmetric'):
+                                for mode in ('edge', 'constant', 'reflect', 'symmetric', 'linear_ramp'):
                                     for ld in ('f8', 'f4'):
                                         full.append(dict(op='deltas', shape=shape, axis=axis, target_axis=ta, concatenate=conc_,
                                                          num_deltas=nd_, W=W, mode=mode, ld=ld))
@@ -181,8 +197,10 @@ def stack_grid(tier, seed):
                     if axis % r == ta % r:
                         continue
                     for V in (1, 2, 3, 4):
-                        for pm in (None, 'edge', 'constant'):
-                            if pm == 'edge' and shape[ta % r] == 0:
+                        for pm in (None, 'edge', 'constant', 'wrap', 'symmetric', 'reflect'):
+                            if pm in ('edge', 'wrap', 'symmetric', 'reflect') and shape[ta % r] == 0:
+                                continue
+                            if pm == 'reflect' and shape[ta % r] == 1:
                                 continue
                             for ld in ('f8', 'f4'):
                                 full.append(dict(op='stack', shape=shape, axis=axis, time_axis=ta, V=V, pad_mode=pm, ld=ld))
@@ -326,12 +344,12 @@ def conformance(tier, seed, results):
                 want = [a[ext_index(t, nlen, mode)] if ext_index(t, nlen, mode) is not None else 0 for t in range(-pw, nlen + pw)]
                 assert list(got) == want, ('np.pad index map', mode, nlen, pw)
                 n += 1
-    for shape, axis in (((4, 3), 0), ((2, 3, 2), 1), ((5,), 0)):
+    for (shape, axis), pm in itertools.product((((4, 3), 0), ((2, 3, 2), 1), ((5,), 0)), ('edge', 'linear_ramp')):
         xs = sym(shape)
         xv = rng.randn(*shape)
         sub = [(t, rq(float(v))) for t, v in zip(xs.raw().ravel(), xv.ravel())]
-        ys = ns['Deltas'](2, context_window=2).apply(xs, axis=axis)
-        yr = Deltas(2, context_window=2).apply(xv, axis=axis)
+        ys = ns['Deltas'](2, context_window=2, pad_mode=pm).apply(xs, axis=axis)
+        yr = Deltas(2, context_window=2, pad_mode=pm).apply(xv, axis=axis)
         yv = np.vectorize(lambda t: float(z3.simplify(z3.substitute(t, *sub)).as_fraction()), otypes=[float])(ys.raw())
         assert yv.shape == yr.shape and np.allclose(yv, yr, atol=1e-12), ('object-array Deltas vs numeric', shape)
         n += 1
